@@ -254,9 +254,14 @@ def mkStream (rustls : Bool) (me : Side) (tape : List Side) (post : Nat) : Strea
 def mkTask (s : Stream) (steps : List Step) : Task :=
   { s, pc := .hs, steps, idx := 0, res := List.replicate (steps.length + 1) .notReached }
 
-def Sys.init (sc : Sched) (rustls : Bool) (tape : List Side) (post : Nat) (cs ss : List Step) : Sys :=
-  { sc, c := mkTask (mkStream rustls .client tape 0) cs, s := mkTask (mkStream rustls .server tape post) ss,
+/-- the client on back-end `rc`, the server on back-end `rs` (`true` = rustls, `false` = native-tls) -/
+def Sys.initX (sc : Sched) (rc rs : Bool) (tape : List Side) (post : Nat) (cs ss : List Step) : Sys :=
+  { sc, c := mkTask (mkStream rc .client tape 0) cs, s := mkTask (mkStream rs .server tape post) ss,
     tpC := Tp.new, tpS := Tp.new, c2s := Pipe.empty, s2c := Pipe.empty,
     flagC := true, flagS := true, doneC := false, doneS := false, panicked := false, polls := 0 }
+
+/-- both roles on the same back-end -/
+def Sys.init (sc : Sched) (rustls : Bool) (tape : List Side) (post : Nat) (cs ss : List Step) : Sys :=
+  Sys.initX sc rustls rustls tape post cs ss
 
 end Compio.TlsSys
